@@ -1,4 +1,6 @@
 import IpcModel.Lemmas.RefineRun
+import IpcModel.GenIpc
+import IpcModel.GenOwn
 /-!
 # C19 — all transports give the same answers, those of an ideal FIFO
 
@@ -41,6 +43,14 @@ theorem C19_alive_is_reachability (i : Ideal.St) (c : Nat) :
 theorem C19_receivers_unique (ops : List Op) (hv : Unix.validFrom ⟨[]⟩ ops = true) :
     Refine.UInv (ops.foldl (fun s op => (Unix.step s op).1) ⟨[]⟩) :=
   (Refine.refine_states ops ⟨[]⟩ ⟨[]⟩ Refine.rel_init hv).inv
+
+/-- **C19_shape** — what the two readings assume about handles, regenerated from the source: embedding a sender in a message clones it
+and embedding a region clones it, embedding a receiver moves it out of the program's hands at serialisation time (so it is
+gone whatever happens to the send — `Unix.unhold` / `Ideal.markInMsg`); a receiver owns its descriptor and closes it exactly
+once unless consumed, sender clones share one descriptor closed by the last of them, an attachment never converted into
+an endpoint closes its descriptor (so a discarded or undecoded message releases what it carried). -/
+theorem C19_shape : Gen.shape_embedClonesSenderMovesReceiver = true ∧ Gen.shape_receiverOwnsOnce = true ∧
+    Gen.shape_senderSharedDescriptor = true ∧ Gen.shape_opaqueOwnsUntilConverted = true := by decide
 
 /-! non-vacuity: a valid program with a receiver travelling inside a message whose carrying receiver is then dropped
 (the cascade destroys the inner channel; at descriptor level it merely becomes unreachable), and a cycle (a receiver sent
